@@ -7,6 +7,7 @@ import (
 	"gverif/core"
 	"gverif/engine/args"
 	"gverif/engine/asmx"
+	"gverif/engine/constfold"
 	"gverif/engine/constx"
 	"gverif/engine/decode"
 	"gverif/engine/dspx"
@@ -56,7 +57,7 @@ var propertyCanaries = map[string][]string{
 	"C05": {"OVERLAP.extent", "OVERLAP.guard", "MODSET.mat", "OVERLAP.symmetric", "TWIN.shadow"},
 	"C06": {"OKFLOW.condpath", "FACT.condafter", "FACTKIND.pair", "OKFLOW.use", "OKFLOW.cond", "OKFLOW.report", "FACT.normorder", "FACT.state", "FACT.condunit", "NILRECV"},
 	"C07": {"ARGS.arms", "ARGS.strict", "ARGS.fullrow", "WORKSIZE.querylen", "ARGS.order", "ARGS.lencheck", "ARGS.query", "MAT.order", "ASM.window", "ASM.tail", "STRIDE.len"},
-	"C08": {"ASM.lost", "PARAMUSE.read", "ASM.window", "ASM.tail", "ASM.units", "STRIDE.extent", "SIB.guards"},
+	"C08": {"CONSTFOLD.underflow", "ASM.lost", "PARAMUSE.read", "ASM.window", "ASM.tail", "ASM.units", "STRIDE.extent", "SIB.guards"},
 	"C09": {"GOPROTO.semcap", "GOPROTO.scratch", "GLOBAL.write", "GOPROTO.capture", "GOPROTO.lockpair", "GOPROTO.sibling", "POOL.uaf"},
 	"C12": {"GRAPHINV.prune", "TWIN.sibguard", "GRAPHINV.panicorder", "GRAPHINV.absent", "GRAPHINV.iterreset", "GRAPHINV.converse", "GRAPHINV.uid", "GRAPHINV.iter", "TWIN.sibstate"},
 	"C16": {"DECODE.order", "DECODE.errdrop", "DECODE.mul", "DECODE.selfcmp", "DECODE.clone", "DECODE.fields"},
@@ -103,6 +104,7 @@ func init() {
 		{"WORKSIZE.fallback", "lapack/gonum/dgehrd.go", "nb = (lwork - tsize) / n", "nb = lwork / n", func() *core.Result { return worksize.RunFallback(def, core.Pkgs("./lapack/gonum")) }},
 		{"GRAPHINV.prune", "graph/multi/directed.go", "\tdelete(g.from[fid][tid], id)\n\tif len(g.from[fid][tid]) == 0 {\n\t\tdelete(g.from[fid], tid)\n\t}", "\tdelete(g.from[fid][tid], id)\n\tdelete(g.from[fid], tid)", func() *core.Result { return graphinv.Run(def) }},
 		{"TWIN.sibguard", "graph/iterator/lines_map.go", "func (l *Lines) Next() bool {\n\tif l.pos >= l.lines {\n\t\treturn false\n\t}\n", "func (l *Lines) Next() bool {\n", func() *core.Result { return twin.Run(twin.Which{SiblingState: []string{"graph/iterator"}}) }},
+		{"CONSTFOLD.underflow", "lapack/gonum/dlassq.go", "abig += (amed * dsbig) * dsbig", "abig += dsbig * dsbig * amed", func() *core.Result { return constfold.Run(def, core.Pkgs("./lapack/gonum")) }},
 		{"WORKSIZE.min", "lapack/gonum/dgels.go", "wsize := max(1, mn+max(mn, nrhs)*nb)", "wsize := max(1, mn+mn*nb)", wsz},
 		{"WORKSIZE.querylen", "lapack/gonum/dormqr.go", "case lwork < max(1, nw) && lwork != -1:\n\t\tpanic(badLWork)", "case lwork < max(1, nw) && lwork != -1:\n\t\tpanic(badLWork)\n\tcase len(tau) != k:\n\t\tpanic(badLenTau)", wsz},
 		{"WORKSIZE.min", "lapack/gonum/dsyev.go", "lworkopt := max(1, (nb+2)*n)", "lworkopt := max(1, (nb+1)*n)", wsz},
